@@ -153,6 +153,13 @@ def binop(interp, op, a, b):
             return ListV(a.items + b.items)
         if isinstance(a, ListV) and _seq_items(b) is not None:
             return ListV(a.items + _seq_items(b))
+    if sym == '|' and isinstance(a, DictV) and isinstance(b, DictV):
+        # dict merge: the right operand wins, order of first appearance
+        d = DictV(list(zip(a.keys, a.vals)))
+        for k_, v_ in zip(b.keys, b.vals):
+            d.set(k_, v_)
+        d.unknown = a.unknown or b.unknown
+        return d
     if isinstance(a, SetV) and isinstance(b, SetV) and sym in ('-', '|',
                                                                '&', '^'):
         if sym == '-':
@@ -838,6 +845,10 @@ def isinstance_(interp, v, t):
         tag = 'set'
     elif isinstance(v, T):
         tag = interp.types.get(v)
+        if v.op == 'group':
+            # a regex group is a str or None (a group that did not take
+            # part in the match): answered by the value
+            tag = None
         if tag is None and v.op == 'exc':
             res = False
             for ty in types:
@@ -1125,6 +1136,11 @@ def call_method(interp, base, name, args, kwargs):
             return from_python(r)
         if name == 'join' and len(args) == 1:
             items = None
+            if isinstance(args[0], IterV) or (
+                    isinstance(args[0], Obj) and args[0].cls is not None and
+                    args[0].cls.lookup('__iter__')[0] is not None):
+                # an iterator (of a repo class): consumed by the join
+                args = [ListV(interp.iterate(args[0]))]
             if isinstance(args[0], (ListV, TupleV)):
                 items = args[0].items
             if items is not None and all(isinstance(x, K) for x in items):
@@ -1777,6 +1793,19 @@ def _while(take):
     def f(interp, args, kwargs):
         if len(args) != 2 or isinstance(args[1], T):
             return NotImplemented
+        src_step = _lazy_source(interp, args[1])
+        if src_step is not None:
+            if not take:
+                raise Inexact('dropwhile over an endless iterator')
+            from .absint import LazyV, _StopLazy
+            pred = args[0]
+
+            def step(i2):
+                v = src_step(i2)
+                if not i2.truth(i2.call(pred, [v])):
+                    raise _StopLazy()
+                return v
+            return LazyV(step)
         items = interp.iterate(args[1])
         i = 0
         while i < len(items) and interp.truth(interp.call(args[0],
@@ -2037,6 +2066,9 @@ def b_iter(interp, args, kwargs):
                 return IterV([from_python(x) for x in got])
         except (CannotEval, Raised):
             pass
+    if isinstance(args[0], T):
+        # unrolled like a loop over the same term would be (bounded, noted)
+        return IterV(interp.iterate(args[0]))
     return T('call', 'iter', interp.termify(args[0]))
 
 
@@ -2265,9 +2297,49 @@ def b_pow(interp, args, kwargs):
     return T('call', 'pow', *[interp.termify(a) for a in args])
 
 
+def _lazy_source(interp, src):
+    """step function of an endless / lazy source, or None."""
+    from .absint import LazyV, Iter2V, _StopLazy
+    if isinstance(src, LazyV):
+        return src.step
+    if isinstance(src, EndlessV):
+        state = {'i': 0}
+
+        def step(i2):
+            state['i'] += 1
+            return src.take(i2, state['i'])[-1]
+        return step
+    if isinstance(src, Iter2V):
+        def step2(i2):
+            v = i2.call(src.func, [])
+            if i2.truth(_compare(i2, '==', v, src.sentinel)):
+                raise _StopLazy()
+            return v
+        return step2
+    return None
+
+
 def b_map(interp, args, kwargs):
+    if len(args) > 2 and not kwargs and not any(
+            isinstance(a, T) for a in args[1:]):
+        # several iterables: as long as the shortest; endless ones follow
+        finite = [a for a in args[1:] if not isinstance(a, EndlessV)]
+        if not finite or any(_lazy_source(interp, a) is not None
+                             for a in finite):
+            return NotImplemented
+        cols = {id(a): interp.iterate(a) for a in finite}
+        n = min(len(c) for c in cols.values())
+        rows = [cols[id(a)][:n] if id(a) in cols else a.take(interp, n)
+                for a in args[1:]]
+        return IterV([interp.call(args[0], [r[i] for r in rows])
+                      for i in range(n)])
     if len(args) != 2:
         return NotImplemented
+    src_step = _lazy_source(interp, args[1])
+    if src_step is not None:
+        from .absint import LazyV
+        f_ = args[0]
+        return LazyV(lambda i2: i2.call(f_, [src_step(i2)]))
     if isinstance(args[1], T) and interp.guide is not None and \
             interp._guided_len(args[1]) is not None:
         # following one input: the elements are those of its value
@@ -2720,7 +2792,10 @@ def b_operator_getitem(interp, args, kwargs):
 
 def b_operator_bin(sym):
     node = {'or_': ast.BitOr, 'and_': ast.BitAnd, 'add': ast.Add,
-            'sub': ast.Sub, 'mul': ast.Mult, 'xor': ast.BitXor}[sym]()
+            'sub': ast.Sub, 'mul': ast.Mult, 'xor': ast.BitXor,
+            'mod': ast.Mod, 'truediv': ast.Div, 'floordiv': ast.FloorDiv,
+            'pow': ast.Pow, 'lshift': ast.LShift, 'rshift': ast.RShift,
+            'matmul': ast.MatMult}[sym]()
 
     def f(interp, args, kwargs):
         if len(args) != 2:
@@ -2810,4 +2885,11 @@ BUILTINS = {
     'operator.sub': b_operator_bin('sub'),
     'operator.mul': b_operator_bin('mul'),
     'operator.xor': b_operator_bin('xor'),
+    'operator.mod': b_operator_bin('mod'),
+    'operator.truediv': b_operator_bin('truediv'),
+    'operator.floordiv': b_operator_bin('floordiv'),
+    'operator.pow': b_operator_bin('pow'),
+    'operator.lshift': b_operator_bin('lshift'),
+    'operator.rshift': b_operator_bin('rshift'),
+    'operator.concat': b_operator_bin('add'),
 }
